@@ -134,14 +134,16 @@ class Run:
             if self.known_hits[key] == 1:
                 self.extra.setdefault('known_finding_witnesses', {})[key] = jsonable(witness)
             return False
-        if len(self.violations) < self.max_violations:
+        self.nviol_total = getattr(self, 'nviol_total', 0) + 1
+        perkey = sum(1 for k, _ in self.violations if k == key)
+        if perkey < 3 and len(self.violations) < 90:
             self.violations.append((key, jsonable(witness)))
         else:
             self.count('violations_beyond_cap')
         return True
 
     def too_many(self):
-        return len(self.violations) >= self.max_violations
+        return getattr(self, 'nviol_total', 0) >= self.max_violations
 
     # ---- finish
     def finish(self):
